@@ -158,7 +158,7 @@ class BulkWriteOperation(object):
                                         multi=multi, upsert=self.is_upsert,
                                         **extra_args)
             ret_val = {}
-            if result.get('upserted'):
+            if result.get('upserted') is not None:
                 ret_val['upserted'] = result.get('upserted')
                 ret_val['nUpserted'] = result.get('n')
             else:
@@ -1391,7 +1391,7 @@ class Collection(object):
             self.delete_one(query)
         else:
             updated = self._update(query, update, upsert)
-            if updated['upserted']:
+            if updated['upserted'] is not None:
                 query = {'_id': updated['upserted']}
 
         if return_document is ReturnDocument.AFTER or kwargs.get('new'):
